@@ -86,7 +86,6 @@ def decode(val: t.Any, *, encoding: str = constants.DEFAULT_ENCODING) -> t.Any:
     return val
 
 
-@compat.lru_cache(maxsize=100_000)
 def isoformat(dt: datetime.date | datetime.time | datetime.timedelta) -> str:
     """Format any date/time object into an ISO-8601 string.
 
@@ -109,11 +108,17 @@ def isoformat(dt: datetime.date | datetime.time | datetime.timedelta) -> str:
         >>> serdes.isoformat(datetime.timedelta(hours=1))
         'PT1H'
     """
+    # Equal date/time objects may differ in their UTC offset, they can't share a cache entry.
     if isinstance(dt, (datetime.date, datetime.time)):
         return dt.isoformat()
+    return _durationformat(dt)
+
+
+@compat.lru_cache(maxsize=100_000)
+def _durationformat(dt: datetime.timedelta) -> str:
     # A negative duration is written as the negated positive duration.
     if dt < datetime.timedelta(0):
-        return f"-{isoformat(-dt)}"
+        return f"-{_durationformat(-dt)}"
     if isinstance(dt, pendulum.Duration):
         years, months = dt.years, dt.months
         days = dt.weeks * 7 + dt.remaining_days
